@@ -51,10 +51,15 @@ BODIES = [
     ("comp_iterable", "def m(x: int):\n    return ['m', [y for y in R(t(1, 'ab'))]]", (3,), "iterable"),
     ("lambda", "def m(x: int):\n    return ['m', (lambda z: R(t(1, z)))(str(x))]", (3,), None),
     ("nested_def", "def m(x: int):\n    def inner(z):\n        return R(t(1, z))\n    return ['m', inner(str(x))]", (3,), None),
+    ("two_scopes_down_defs", "def m(x: int):\n    def a(z):\n        def b():\n            return R(t(1, z))\n        return b()\n    return ['m', a(str(x))]", (3,), None),
+    ("two_scopes_down_lambdas", "def m(x: int):\n    return ['m', (lambda z: (lambda: R(t(1, z)))())(str(x))]", (3,), None),
+    ("lambda_in_nested_def", "def m(x: int):\n    def a(z):\n        return (lambda: [R(t(i, z)) for i in range(2)])()\n    return ['m', a(str(x))]", (3,), None),
     ("conditional", "def m(x: int):\n    return ['m', R(t(1, 'a')) if x > 2 else R(t(2, 'b'))]", (3,), None),
     ("boolean", "def m(x: int):\n    return ['m', R(t(1, '')) or R(t(2, 'b')), R(t(3, 'c')) and R(t(4, 'd'))]", (3,), None),
     ("fstring", "def m(x: int):\n    return ['m', f'<{R(t(1, str(x)))}>']", (3,), None),
     ("keyword", "def m(x: int, *, k: object = None):\n    return ['m', R(t(1, str(x)), k=t(2, 'kw'))]", (3,), None),
+    ("two_keywords_reverse_declaration_order", "def m(x: int, *, k: object = None, j: object = None):\n    return ['m', R(t(1, str(x)), j=t(2, 'j'), k=t(3, 'k'))]", (3,), None),
+    ("two_keywords_declaration_order", "def m(x: int, *, k: object = None, j: object = None):\n    return ['m', R(t(1, str(x)), k=t(2, 'k'), j=t(3, 'j'))]", (3,), None),
     ("starred", "def m(x: int):\n    args = (str(x),)\n    return ['m', R(*args)]", (3,), "star"),
     ("double_starred", "def m(x: int, *, k: object = None):\n    kw = dict(k='kw')\n    return ['m', R(str(x), **kw)]", (3,), "starkw"),
     ("walrus", "def m(x: int):\n    return ['m', (w := R(t(1, str(x)))), w]", (3,), None),
@@ -99,7 +104,18 @@ def build(name, src, which, closure=False):
 
     # companions: with a keyword-only parameter for bodies that pass one, with an optional second positional otherwise
     # (one signature having both would run into the known finding F-kwdrop on the reference side)
-    if "k=" in src or "**kw" in src or "*, k" in src:
+    if "j=" in src:
+
+        def s_method(x: str, *, k: object = None, j: object = None):
+            return ["s", x, None, k, j]
+
+        def o_method(x: object, *, k: object = None, j: object = None):
+            return ["o", x, None, k, j]
+
+        def lower_int(x: int, *, k: object = None, j: object = None):
+            return ["lower_int", x, None, k, j]
+
+    elif "k=" in src or "**kw" in src or "*, k" in src:
 
         def s_method(x: str, *, k: object = None):
             return ["s", x, None, k]
